@@ -191,10 +191,17 @@ class Machine:
             self.lo, self.hi = 0, (case["init"]["npts"] - 1) * case["init"]["h"] * US
 
     # --- oracle for states
+    def fresh_obj(self):
+        """A never-used object holding the initial orbit: built from the case, then re-expressed by the
+        same user changes (form / frame set in place) the shared object went through."""
+        o = fresh_objects(self.case)
+        for what, value in getattr(self, "user_ops", []):
+            setattr(o, what, value)
+        return o
+
     def fresh(self, t_us):
         if t_us not in self.cache:
-            o = fresh_objects(self.case)
-            self.cache[t_us] = cart(o.propagate(mkdate(t_us)))
+            self.cache[t_us] = cart(self.fresh_obj().propagate(mkdate(t_us)))
         return self.cache[t_us]
 
     def state_tol(self):
@@ -219,12 +226,8 @@ class Machine:
 
     def same_state(self, got, t_us, what):
         ref = self.fresh(t_us)
-        if getattr(self, "user_changed", False) and got.frame.name != "EME2000" and self.kind != "ephem":
-            got = got.copy(frame="EME2000")
         g = cart(got)
         tol = self.state_tol()
-        if getattr(self, "user_changed", False):
-            tol = max(tol, 1e-3)  # rounding of the user's form / frame round trip, grown along-track
         if tol == 0.0:
             if not np.array_equal(g, ref):
                 d = float(np.linalg.norm(g[:3] - ref[:3]))
@@ -405,7 +408,7 @@ class Machine:
         if any(b < a - 1 for a, b in zip(ts, ts[1:])):
             raise Violation("stream-order", "iteration with listeners is not chronological")
         # history independence: identical to a run on fresh objects with fresh listeners
-        o = fresh_objects(self.case)
+        o = self.fresh_obj()
         ref = list(o.iter(listeners=[NodeListener(), ApsideListener()], **kw))
         # (events within 5 us of a sample date are the "crossing exactly on a sample" class: the sign of
         # an exact zero is not part of the statement, and a rounding of 1e-16 flips it)
@@ -478,7 +481,7 @@ class Machine:
         if not hasattr(sv, "propagate"):
             return ["skip"]
         got = cart(sv.propagate(mkdate(t2)))
-        fresh = Orbit(coords, mkdate(t1), "cartesian", "EME2000", type(self.obj.propagator)())
+        fresh = Orbit(coords, mkdate(t1), "cartesian", sv.frame, type(self.obj.propagator)())
         ref = cart(fresh.propagate(mkdate(t2)))
         if not np.array_equal(got, ref):
             d = float(np.linalg.norm(got[:3] - ref[:3]))
@@ -489,9 +492,12 @@ class Machine:
         return ["kick:" + op["variant"]]
 
     def op_user_change(self, op):
-        """The USER re-expresses the shared orbit in place (another form, another non-rotating frame):
-        the physical state is the same, so every later propagation must still agree with the fresh
-        reference (to the rounding of the conversion), whatever the propagator cached before."""
+        """The USER re-expresses the shared orbit in place (another form, another non-rotating frame): the
+        initial orbit now is that re-expressed one, and every later result must equal what a never-used
+        object re-expressed the same way gives, whatever the propagator cached before.  (The reference is
+        propagated in the same frame: beyond relates GCRF / EME2000 / G50 through its Earth-orientation
+        models, so they drift against each other by ~1e-13 rad/s and propagating in one is not propagating
+        in the other.)"""
         if self.kind not in ("kepler", "j2", "keplernum", "none"):
             return ["skip"]
         if op["what"] == "form":
@@ -501,8 +507,8 @@ class Machine:
                 return ["skip"]
             self.obj.frame = op["value"]
         self.snap = snapshot(self.obj)
-        self.user_changed = True
-        # back to the reference frame for the comparison of later results
+        self.user_ops = getattr(self, "user_ops", []) + [(op["what"], op["value"])]
+        self.cache = {}
         return ["user_change:" + op["what"]]
 
     def op_partial(self, op):
